@@ -49,7 +49,7 @@ def run_item(item):
     pos = [is_pos(v) for v in vs]
     neg = [is_neg(v) for v in vs]
     spec, _ = S.delta_z3_fixed_comp(pos, neg, a, b)
-    rng = random.Random(N * 1009 + a * 31 + b)
+    rng = seeded_rng(N * 1009 + a * 31 + b)
     # history prelude: other objects with the same charge counts but other lengths (and unrelated ones) are analysed natively
     # first, so that module-level state shared between objects (caches keyed too coarsely, mutated tables) is in a used state
     prelude = std_prelude(N, a, b)
